@@ -131,7 +131,7 @@ def build():
     # R6: split `P1 | P2 if G => B` into two arms (Verus: or-pattern with guard unsupported)
     v.replace_re(r"Ok\(ProguardRecord::Field \{ \.\. \}\) \| Ok\(ProguardRecord::Method \{ \.\. \}\)\s*if has_class_line =>\s*\{\s*return true;\s*\}",
                  "Ok(ProguardRecord::Field { .. }) if has_class_line => { return true; }\n                Ok(ProguardRecord::Method { .. }) if has_class_line => { return true; }",
-                 "R6", why="or-pattern with a guard split into two arms with the same guard and body")
+                 "R6", why="or-pattern with a guard split into two arms with the same guard and body") if __import__("re").search(r"Ok\(ProguardRecord::Field \{ \.\. \}\) \| Ok\(ProguardRecord::Method", v.orig) else None
     v.for_iter_name(1, "it")
     v.loop_spec(1, """            invariant
                 it.seq() == records(self.source@).take(50) || (records(self.source@).len() < 50 && it.seq() == records(self.source@)),
